@@ -11,8 +11,9 @@ Trace == ndJsonDeserialize(TraceFile)
 
 FS == INSTANCE FsStruct
 
-VARIABLES l, s, bad, seg, ctx, fr, H, Dur
-vars == <<l, s, bad, seg, ctx, fr, H, Dur>>
+VARIABLES l, s, bad, seg, ctx, fr, H, Dur, acc
+vars == <<l, s, bad, seg, ctx, fr, H, Dur, acc>>
+(* acc: a disk size has been accepted in this layout segment (sizes come in increasing order) *)
 
 (* H (only in segments that contain crash probes): the abstract tree after each call,   *)
 (* H[1] = initial, H[j+1] = after the j-th call; Dur[j+1] = index into H of the state   *)
@@ -31,7 +32,7 @@ CtxRules == (IF "failed" \in ctx THEN <<"C09:after-failed-operation">> ELSE <<>>
 
 Dummy == InitState("", TRUE)
 
-TInit == l = 1 /\ s = Dummy /\ bad = TRUE /\ seg = 0 /\ ctx = {} /\ fr = NoFr /\ H = <<>> /\ Dur = <<>>
+TInit == l = 1 /\ s = Dummy /\ bad = TRUE /\ seg = 0 /\ ctx = {} /\ fr = NoFr /\ H = <<>> /\ Dur = <<>> /\ acc = FALSE
 
 Report(line, rules, e) ==
   PrintT("VIOL " \o ToJson([line |-> line, seg |-> seg, rules |-> rules \o CtxRules,
@@ -78,6 +79,7 @@ RecoverCrash(e) ==
 Consume ==
   /\ l <= Len(Trace)
   /\ l' = l + 1
+  /\ acc' = IF Trace[l].ev = "reset" THEN FALSE ELSE IF Trace[l].ev = "layout" /\ Trace[l].accepted THEN TRUE ELSE acc
   /\ LET e == Trace[l] IN
      IF e.ev = "reset"
      THEN /\ s' = InitState(e.root, e.unstable) /\ bad' = FALSE /\ seg' = e.seg /\ ctx' = {} /\ fr' = NoFr
@@ -114,6 +116,21 @@ Consume ==
                     [] e.ev = "crash" ->
                          LET v == FS!StructRules(e.snap) IN
                          (IF v = <<>> THEN TRUE ELSE Report(l, v, e)) /\ RecoverCrash(e)
+                    [] e.ev = "layout" ->
+                         IF acc /\ ~e.accepted
+                         THEN Report(l, <<"C15:size-rejected-although-a-smaller-size-is-accepted">>, e) /\ UNCHANGED <<s, bad>>
+                         ELSE UNCHANGED <<s, bad>>
+                    [] e.ev = "fill" ->
+                         LET S == e.snap
+                             v == FS!StructRules(S)
+                                  \o (IF FS!Clip(S.bbm, S.datastart, S.size) # S.datastart..(S.size - 1) \/ e.freeb # 0
+                                      THEN <<"C15:data-region-not-fully-allocatable">> ELSE <<>>)
+                         IN IF v = <<>> THEN UNCHANGED <<s, bad>> ELSE Report(l, v, e) /\ UNCHANGED <<s, bad>>
+                    [] e.ev = "emptied" ->
+                         LET v == FS!StructRules(e.snap)
+                                  \o (IF e.freeb + e.rootblocks - 1 # e.freeb0 \/ e.freei # e.freei0
+                                      THEN <<"C15,C05:space-not-freed-after-filling-the-disk">> ELSE <<>>)
+                         IN IF v = <<>> THEN UNCHANGED <<s, bad>> ELSE Report(l, v, e) /\ UNCHANGED <<s, bad>>
                     [] e.ev = "freecheck" ->
                          IF e.freeb + e.rootblocks - 1 = e.freeb0 /\ e.freei = e.freei0 /\ DOMAIN s.objs = {RootId} THEN UNCHANGED <<s, bad>>
                          ELSE Report(l, <<"C05:free-space-not-back-to-initial-after-deleting-everything">>, e) /\ bad' = TRUE /\ s' = s
